@@ -121,6 +121,9 @@ class StmtMixin:
         if m is None:
             raise Unsupported("statement %s" % type(s).__name__, s)
         self.stmt_count += 1
+        join = self.join_hooks.get(id(s))
+        if join is not None:
+            return self.exec_joined(s, st, m, join)
         outs = m(s, st)
         ghost = self.ghost_hooks.get(id(s))
         if ghost:
@@ -136,9 +139,52 @@ class StmtMixin:
             return res
         return outs
 
+    def exec_joined(self, s, st, m, cutname):
+        """Block contract: every normal exit of statement `s` must establish the named cut formula; execution
+        continues from ONE state in which only what `s` may modify is forgotten and the formula is assumed."""
+        before = st.fork()
+        outs = m(s, st)
+        ghost = self.ghost_hooks.get(id(s)) or []
+        res, n_normal = [], 0
+        for o in outs:
+            if o.kind != "normal":
+                res.append(o)
+                continue
+            cur = o.st
+            for g in (self.exec_block(ghost, cur) if ghost else [Outcome("normal", cur)]):
+                n_normal += 1
+                ctx = S.Ctx(g.st.env, old=self.old_ctx, loops=g.st.loops)
+                for label, f in self.con.cuts[cutname](ctx):
+                    self.emit(Obligation("%s/%s/join[%s:%s]" % (self.con.qualname, g.st.pathname(), cutname, label), g.st.pc, f, kind="cut"))
+        if n_normal == 0:
+            return res
+        merged = before
+        paths = self.mutated_paths([s] + list(ghost), before)
+        self.havoc_paths(merged, paths)
+        merged.tag("join:%s" % cutname)
+        ctx = S.Ctx(merged.env, old=self.old_ctx, loops=merged.loops)
+        for label, f in self.con.cuts[cutname](ctx):
+            merged.assume(f)
+        res.append(Outcome("normal", merged))
+        return res
+
     def install_ghost_hooks(self, body):
         """Sidecar ghost statements attached after real statements, matched by source prefix."""
         self.ghost_hooks = {}
+        self.join_hooks = {}
+        for prefix, cutname in (getattr(self.con, "joins", None) or []):
+            hits = 0
+            for n in ast.walk(ast.Module(body=body, type_ignores=[])):
+                if isinstance(n, ast.stmt) and not isinstance(n, Inline):
+                    try:
+                        src = ast.unparse(n)
+                    except Exception:
+                        continue
+                    if src.startswith(prefix):
+                        self.join_hooks[id(n)] = cutname
+                        hits += 1
+            if hits != 1:
+                raise Unsupported("annotation mismatch: %d statements start with %r (join)" % (hits, prefix))
         spec = getattr(self.con, "ghost_after", None) or []
         ghost_names = set(getattr(self.con, "ghost_vars", ()))
         for prefix, code in spec:
@@ -452,6 +498,13 @@ class StmtMixin:
                 raise Unsupported("attribute assignment on %s" % base.ty, target)
             info = S.CLASSES[base.ty.cls]
             setter = "%s.%s.%s.setter" % (info["module"], info.get("source_class", base.ty.cls), target.attr)
+            alias = info.get("alias", {}).get(target.attr)
+            if target.attr not in base.t and alias and check_owned:
+                # in-place mutation of the object behind a read-only view property (e.g. point.tags.update(...))
+                rec = dict(base.t)
+                rec[alias] = self.coerce(val, rec[alias].ty, target)
+                self.assign_to(target.value, Val(base.ty, rec), st, check_owned=False)
+                return
             if target.attr not in base.t:
                 if setter in S.REGISTRY:
                     # property setter: apply its contract (pure on the record: frame = modifies)
@@ -782,9 +835,18 @@ class StmtMixin:
         self.havoc_paths(body_st, paths)
         t = z3.Int(fresh_name("t"))
         body_st.loops[k] = S.LoopInfo(t, n, seq, extra)
+        kt = self.loop_ordinals[id(s)]
+        fallible = extra.get("fallible") or (self.root_name(s.iter.args[0] if isinstance(s.iter, ast.Call) and s.iter.args else s.iter) in getattr(self.con, "fallible_iter", {})
+                                             and self.con.fallible_iter[self.root_name(s.iter.args[0] if isinstance(s.iter, ast.Call) and s.iter.args else s.iter)])
+        if fallible:
+            # the iterable reads from a device: any next() - including the one that would end the loop - may raise instead of yielding
+            fs = body_st.fork()
+            fs.assume(z3.And(0 <= t, t <= n))
+            self.assume_inv(fs, k, spec)
+            fs.tag("loop%s:%s" % (kt, fallible))
+            res.append(Outcome("raise", fs, exc=fallible))
         body_st.assume(z3.And(0 <= t, t < n))
         self.assume_inv(body_st, k, spec)
-        kt = self.loop_ordinals[id(s)]
         body_st.tag("loop%s:iter" % kt)
         body_st.env["_t"] = Val(TInt, t)  # ghost: iterations completed (readable by ghost code only)
         self.bind_target(s.target, elem(t), body_st, s)
